@@ -32,6 +32,7 @@ def make_script(cfg, rng):
         return pin[0]
 
     names = []
+    first_decl = len(L)
     for i in range(n_par):
         L.append(f"lcdp{i} = LCD(rs={nxt()}, en={nxt()}, d4={nxt()}, d5={nxt()}, d6={nxt()}, d7={nxt()}" + (f", backlight_pin={nxt()}" if rng.random() < 0.3 else "") + (f", rw={nxt()}" if rng.random() < 0.4 else "") + ")")
         names.append(("lcd", f"lcdp{i}"))
@@ -43,6 +44,11 @@ def make_script(cfg, rng):
     for i in range(n_servo_pre):
         L.append(f"sv{i} = Servo({nxt()})" + tail_comment(rng))
         names.append(("servo", f"sv{i}"))
+    if rng.random() < 0.5:
+        # the library devices in any order (servo, display, servo, ...): a library needed twice is still requested once
+        decls = L[first_decl:]
+        rng.shuffle(decls)
+        L[first_decl:] = decls
     if noise:
         L += [f"led = Led({nxt()})", f"rgb = RGBLed({nxt()}, {nxt()}, {nxt()})", f"mot = DCMotor({nxt()}, {nxt()}, {nxt()})",
               f"bz = Buzzer({nxt()})", f"btn = Button({nxt()})", "pot = Potentiometer(\"A0\")", f"us = Ultrasonic({nxt()}, {nxt()})"]
@@ -60,7 +66,7 @@ def make_script(cfg, rng):
             body += ["led.toggle()", "mon.write(pot.read())"]
     body.append("sleep(10)")
     if main_loop or n_servo_loop:
-        L.append("while True:")
+        L.append("while True:" + tail_comment(rng))
         L += ["    " + b for b in body]
     else:
         L += body
